@@ -226,7 +226,7 @@ def shapes(tier):
 
 
 def run(ctx):
-    L = 5 if ctx.quick else 7
+    L = 6 if ctx.quick else 8
     cap = 3 if ctx.quick else 4
     sh = shapes(ctx.tier)
     ctx.bounds = dict(history_length=L, pending_cap=cap, shapes=len(sh))
